@@ -67,6 +67,7 @@ type FuncContract struct {
 	Timeout   int
 	Bounded   string // non-empty: this unit is a bounded check with the stated bound
 	Establishes []string
+	ThoroughOnly bool
 	CallersInline bool     // at call sites the body is inlined (exact state) and the listed ensures are assumed as facts
 	InlineFacts   []string // labels of the ensures clauses assumed after inlining
 	Opaque    []string
@@ -88,6 +89,7 @@ type Lemma struct {
 	File   string
 	Line   int
 	Timeout int
+	Axiom  bool   // assumed without proof (definitional); listed in the trusted base
 	Fact   bool   // justified by an init function's `establishes`, not by an SMT query
 	EstBy  string // function that establishes the fact
 }
@@ -146,7 +148,7 @@ func newContracts() *Contracts {
 		Ghosts: map[string]*GhostVar{}, Externs: map[string]*FuncContract{}, Writers: map[string][]string{}, Scenarios: map[string]*Scenario{}, ImportsByPkg: map[string][]string{}}
 }
 
-var kwRe = regexp.MustCompile(`^(import|define|ghost|func|extern|lemma|fact|scenario|do|establishes|writers|callers-inline|props|requires|ensures|modifies|nopanic|exact-conversions|trusted|inline|split|loop|assert|use|hyp|concl|timeout|bounded|opaque)\b`)
+var kwRe = regexp.MustCompile(`^(import|define|ghost|func|extern|lemma|axiom|fact|scenario|do|establishes|writers|callers-inline|thorough-only|props|requires|ensures|modifies|nopanic|exact-conversions|trusted|inline|split|loop|assert|use|hyp|concl|timeout|bounded|opaque)\b`)
 
 func parseExprSrc(src string) (ast.Expr, error) {
 	// ==> is written as implies(); allow `a ==> b` at top level as sugar, right-assoc
@@ -350,6 +352,10 @@ func (cs *Contracts) LoadContractFile(path string, pkgShort string) error {
 			}
 			st.Call = c
 			curScenario.Steps = append(curScenario.Steps, st)
+		case "thorough-only":
+			if cur != nil {
+				cur.ThoroughOnly = true
+			}
 		case "callers-inline":
 			cur.CallersInline = true
 			cur.InlineFacts = strings.Fields(r.text)
@@ -367,7 +373,7 @@ func (cs *Contracts) LoadContractFile(path string, pkgShort string) error {
 			for _, f := range strings.Fields(r.text[i+1:]) {
 				cs.Writers[g] = append(cs.Writers[g], normalizeFuncName(f, pkgShort))
 			}
-		case "lemma", "fact":
+		case "lemma", "fact", "axiom":
 			// lemma name(p type, q type)
 			lp := strings.Index(r.text, "(")
 			if lp < 0 {
@@ -375,7 +381,10 @@ func (cs *Contracts) LoadContractFile(path string, pkgShort string) error {
 			}
 			name := strings.TrimSpace(r.text[:lp])
 			ps := strings.TrimSuffix(strings.TrimSpace(r.text[lp+1:]), ")")
-			lm := &Lemma{Pkg: pkgShort, Name: name, File: path, Line: r.line, Fact: r.kw == "fact"}
+			lm := &Lemma{Pkg: pkgShort, Name: name, File: path, Line: r.line, Fact: r.kw == "fact", Axiom: r.kw == "axiom"}
+			if lm.Axiom {
+				cs.Scan = append(cs.Scan, fmt.Sprintf("%s:%d: axiom %s.%s (assumed, not proved)", filepath.Base(path), r.line, pkgShort, name))
+			}
 			for _, p := range strings.Split(ps, ",") {
 				f := strings.Fields(p)
 				if len(f) == 2 {
